@@ -40,7 +40,8 @@ func verifDrop(l labels.Labels) labels.Labels {
 func VerifH06b() {
 	fi := sym.Choice("func", len(verifInstantFuncs))
 	f := verifInstantFuncs[fi]
-	series := []labels.Labels{stub.Labels("__name__", "m", "a", "x"), stub.Labels("__name__", "m", "a", "y")}
+	// the second series has a label that sorts before __name__ (upper case) and spare capacity
+	series := []labels.Labels{stub.Labels("__name__", "m", "a", "x"), stub.LabelsCap(2, "A", "1", "__name__", "m", "a", "y")}
 	t0 := sym.Int64("t0", -verifR, verifR)
 	dt := sym.Int64("dt", 1, verifR)
 	shape := []int{2, 1}
@@ -151,7 +152,8 @@ func VerifH06b() {
 	out, err := o.Next(ctx)
 	sym.Assert("C18/func/end", out == nil && err == nil)
 	for k := range series {
-		sym.Assert("C17/func/input-labels-untouched", stub.SameLabels(series[k], stub.Labels("__name__", "m", "a", []string{"x", "y"}[k])))
+		orig := []labels.Labels{stub.Labels("__name__", "m", "a", "x"), stub.Labels("A", "1", "__name__", "m", "a", "y")}[k]
+		sym.Assert("C17/func/input-labels-untouched", stub.SameLabels(series[k], orig))
 	}
 	sym.Reached("C06/func/end")
 }
